@@ -157,7 +157,8 @@ func outcome(err error) string {
 func pairsStamps(ss []*head.Stamp) [][]string {
 	out := [][]string{}
 	for _, s := range ss {
-		out = append(out, []string{string(s.Provider), s.Value})
+		ap, av := absStamp(string(s.Provider), s.Value)
+		out = append(out, []string{ap, av})
 	}
 	return out
 }
@@ -221,6 +222,35 @@ func benignNext(s string) string {
 		return base + benignSuffix[n+1]
 	}
 	return s + "x"
+}
+
+// concrete spellings of the model's stamp providers and values: different (provider, value) pairs may have the
+// same concatenation ("prov"+"ab" = "prova"+"b"); a comparison that glues the two fields confuses them
+var (
+	stampProv    = map[string]string{"p1": "prov", "p2": "prova"}
+	stampVal     = map[string]string{"a": "ab", "b": "b"}
+	stampProvInv = map[string]string{"prov": "p1", "prova": "p2"}
+	stampValInv  = map[string]string{"ab": "a", "b": "b"}
+)
+
+func concStamp(p, v string) (string, string) {
+	if c, ok := stampProv[p]; ok {
+		p = c
+	}
+	if c, ok := stampVal[v]; ok {
+		v = c
+	}
+	return p, v
+}
+
+func absStamp(p, v string) (string, string) {
+	if c, ok := stampProvInv[p]; ok {
+		p = c
+	}
+	if c, ok := stampValInv[v]; ok {
+		v = c
+	}
+	return p, v
 }
 
 func (r *envRig) project(env *gobl.Envelope) envState {
@@ -336,10 +366,12 @@ func (r *envRig) apply(env **gobl.Envelope, op Op) (out string) {
 		e.Unsign()
 		return "ok"
 	case "AddStamp":
-		e.Head.AddStamp(&head.Stamp{Provider: cbc.Key(op.A), Value: op.B})
+		cp, cv := concStamp(op.A, op.B)
+		e.Head.AddStamp(&head.Stamp{Provider: cbc.Key(cp), Value: cv})
 		return "ok"
 	case "DupStamp":
-		e.Head.Stamps = append(e.Head.Stamps, &head.Stamp{Provider: cbc.Key(op.A), Value: op.B})
+		cp, cv := concStamp(op.A, op.B)
+		e.Head.Stamps = append(e.Head.Stamps, &head.Stamp{Provider: cbc.Key(cp), Value: cv})
 		return "ok"
 	case "ClearStamps":
 		e.Head.Stamps = nil
